@@ -1679,8 +1679,30 @@ func main() {
 		results[i] = w.runCase(r, &all[i])
 	}
 	t0 := time.Now()
+	// sequential: a failed call may leave process-wide state behind, the next call must not see it. The phase has its
+	// own share of the wall-clock allowance and a strided order, so that under machine load it is cut evenly and the
+	// parallel phase still gets its time.
+	faultBudget := hx.Budget(8 * time.Second)
+	if r.Thorough() {
+		faultBudget = hx.Budget(2 * time.Minute)
+	}
+	skippedAll := make([]bool, len(faults)+len(cases))
+	fstride := 131
+	for len(faults) > 0 && len(faults)%fstride == 0 {
+		fstride += 2
+	}
+	faultsCut := 0
 	for i := range faults {
-		one(i) // sequential: a failed call may leave process-wide state behind, the next call must not see it
+		j := (i * fstride) % len(faults)
+		if time.Since(t0) > faultBudget {
+			skippedAll[j] = true
+			faultsCut++
+			continue
+		}
+		one(j)
+	}
+	if faultsCut > 0 {
+		r.Capped(fmt.Sprintf("wall-clock share of the sequential phase used up: %d of %d fault histories (strided order) completed", len(faults)-faultsCut, len(faults)))
 	}
 	t1 := time.Now()
 	// the parallel phase visits the cases in a strided order, so that a run cut short by the internal deadline
@@ -1694,7 +1716,7 @@ func main() {
 	for len(cases)%stride == 0 {
 		stride += 2
 	}
-	skipped := make([]bool, len(all))
+	skipped := skippedAll
 	var nSkipped atomic.Int64
 	r.Parallel(len(cases), func(i int) {
 		j := len(faults) + int((int64(i)*int64(stride))%int64(len(cases)))
@@ -1706,7 +1728,7 @@ func main() {
 		one(j)
 	}, nil)
 	if n := nSkipped.Load(); n > 0 {
-		r.Capped(fmt.Sprintf("internal deadline: %d of %d parallel histories (strided order over the enumeration) and all %d sequential fault histories completed", int64(len(cases))-n, len(cases), len(faults)))
+		r.Capped(fmt.Sprintf("internal deadline: %d of %d parallel histories (strided order over the enumeration) completed", int64(len(cases))-n, len(cases)))
 	}
 	r.Extra["phase_wall_seconds"] = map[string]float64{"fault_histories_sequential": t1.Sub(t0).Seconds(), "product_and_reuse_parallel": time.Since(t1).Seconds()}
 	var verified, total int64
@@ -1745,7 +1767,7 @@ func main() {
 	}
 
 	clockTickFamily(r) // sequential: the clock of package signer is process-global
-	r.Extra["histories_skipped_by_deadline"] = nSkipped.Load()
+	r.Extra["histories_skipped_by_deadline"] = nSkipped.Load() + int64(faultsCut)
 	r.Extra["histories"] = total
 	r.Extra["histories_whose_judged_round_trip_verified"] = verified
 	if verified == 0 {
